@@ -172,11 +172,41 @@ def cmd_run(pid, tier):
     extra = []
     if tier == "thorough" and pid in THOROUGH_DEADLINE_S and "VERIF_DEADLINE_S" not in os.environ:
         extra = ["--deadline", str(THOROUGH_DEADLINE_S[pid])]
+    Rq = None
+    if tier == "thorough" and not os.environ.get("VERIF_NO_QUICK_PASS"):
+        # first pass: the complete quick tier, so that whatever the thorough budgets and the global
+        # deadline leave unexplored on a slow day, the thorough tier never covers less than the quick one
+        resq = os.path.join(B, f"result_{pid}_quickpass.json")
+        if os.path.exists(resq):
+            os.unlink(resq)
+        rq = subprocess.run([exe, "--tier", "quick", "--out", resq], cwd=V, env=env)
+        if not os.path.exists(resq):
+            print(f"MACHINERY-ERROR: harness {pid} produced no result in the quick pass (rc={rq.returncode})")
+            return 2
+        Rq = json.load(open(resq))
     r = subprocess.run([exe, "--tier", tier, "--out", res] + extra, cwd=V, env=env)
     if not os.path.exists(res):
         print(f"MACHINERY-ERROR: harness {pid} produced no result (rc={r.returncode})")
         return 2
     R = json.load(open(res))
+    if Rq is not None:
+        for k in ("executions", "choice_nodes", "sched_steps", "switches", "nontrivial", "cases", "hangs", "bfs_states",
+                  "bfs_transitions", "traces", "fault_evaluations", "fault_nontrivial", "scenarios",
+                  "vacuous_scenarios", "machinery_errors"):
+            R[k] = R.get(k, 0) + Rq.get(k, 0)
+        for st in Rq["scenario_stats"]:
+            st["scenario"] = "[quick pass] " + st["scenario"]
+        R["scenario_stats"] = Rq["scenario_stats"] + R["scenario_stats"]
+        sigs = {v["signature"] for v in R["violations"]}
+        R["violations"] += [v for v in Rq["violations"] if v["signature"] not in sigs]
+        R["unreproduced"] = (R.get("unreproduced") or []) + (Rq.get("unreproduced") or [])
+        R["samples"] = (R.get("samples") or []) + (Rq.get("samples") or [])[:4]
+        R["determinism_ok"] = bool(R["determinism_ok"]) and bool(Rq["determinism_ok"])
+        R["exhaustive"] = bool(R["exhaustive"]) and bool(Rq["exhaustive"])
+        R.setdefault("notes", {})["quick_pass"] = (
+            f"the thorough tier starts with the complete quick tier ({Rq['executions']} executions, "
+            f"{len(Rq['scenario_stats'])} scenarios, {Rq['wall_s']} s; rows marked [quick pass]), then runs the "
+            "thorough budgets; counts are the sums of both passes")
     known = [k for k in load_known() if k.get("property") == pid and k.get("status") == "known"]
     rc = 0
     nknown = 0
